@@ -156,7 +156,7 @@ func mutC01() []mutant {
 		{Name: "Countersignature.Verify checks the parent's signature bytes", File: "countersign.go", Rule: "R01.1",
 			Old: "\treturn verifier.Verify(toBeSigned, s.Signature)\n}\n\n// toBeSigned returns ToBeSigned from COSE_Countersignature object.", New: "\treturn verifier.Verify(toBeSigned, s.Headers.RawProtected)\n}\n\n// toBeSigned returns ToBeSigned from COSE_Countersignature object."},
 		{Name: "ToBeSigned depends on a package-level counter", File: "sign.go", Rule: "R01.4",
-			Old: "\tif external == nil {\n\t\texternal = []byte{}\n\t}\n\tsigStructure := []any{\n\t\t\"Signature\",   // context", New: "\tif external == nil {\n\t\texternal = signaturePrefix[:0]\n\t}\n\tsigStructure := []any{\n\t\t\"Signature\",   // context"},
+			Old: "\tif external == nil {\n\t\texternal = []byte{}\n\t}\n\tsigStructure := []any{\n\t\t\"Signature\",   // context", New: "\tif external == nil {\n\t\texternal = []byte{}\n\t}\n\tsignaturePrefix[0]++\n\texternal = append(external[:len(external):len(external)], signaturePrefix[0])\n\tsigStructure := []any{\n\t\t\"Signature\",   // context"},
 		{Name: "payload slot type loses nil", File: "sign1.go", Rule: "R01.3",
 			Old: "\tPayload     byteString\n\tSignature   byteString\n}\n\n// sign1MessagePrefix", New: "\tPayload     []byte\n\tSignature   byteString\n}\n\n// sign1MessagePrefix"},
 	}
